@@ -203,13 +203,17 @@ theorem file_bytes (c : Cfg) (tm : TM) (slices : List (List CS)) (kept : List Md
     (hfold : foldCols (tm.cols.flatMap (·.entries)) = .ok kept)
     (htab : MdWritable tm.table) (hcols : ∀ col ∈ tm.cols, MdWritable col)
     (hkept : ∀ k ∈ kept, ∀ d, k.dflt = some d → Writable d)
-    (hsl : ∀ s ∈ slices, ∀ x ∈ s, x.Writable) :
+    (hsl : ∀ s ∈ slices, ∀ x ∈ s, x.Writable)
+    (hlen : ∀ s ∈ slices, s.length = tm.cols.length) :
     Emits (writeFile c ⟨tm, slices.map (fun s => ⟨s.map some⟩)⟩) (C04.file c (canonPhys tm kept) slices) := by
   unfold writeFile C04.file
   simp only [List.map_map]
-  have hs : Emits (seqAll (slices.map ((writeTS c) ∘ fun s => ⟨s.map some⟩))) (slices.flatMap (Spec.ts c)) := by
+  have hs : Emits (seqAll (slices.map ((writeTSOf c tm) ∘ fun s => ⟨s.map some⟩))) (slices.flatMap (Spec.ts c)) := by
     apply Emits.seqAllMap
     intro s hs'
+    have : writeTSOf c tm ⟨s.map some⟩ = writeTS c ⟨s.map some⟩ := by
+      simp [writeTSOf, hlen s hs']
+    simp only [Function.comp, this]
     exact emits_ts c s (hsl s hs')
   have := Emits.append (Emits.append (Emits.append emits_fh (tm_bytes c tm kept hfold htab hcols hkept)) hs) emits_end
   exact Emits.congr this (by simp [List.append_assoc])
